@@ -2,6 +2,7 @@ package main
 
 import (
 	"flag"
+	"go/types"
 	"fmt"
 	"os"
 	"path/filepath"
@@ -118,6 +119,8 @@ func main() {
 			os.RemoveAll(smtScratch)
 		}
 		os.Exit(code)
+	case "impls":
+		os.Exit(cmdImpls(os.Args[2:]))
 	default:
 		fmt.Fprintln(os.Stderr, "unknown command")
 		os.Exit(2)
@@ -221,4 +224,31 @@ func cmdVerify(pat string, to int, dump, verbose bool) int {
 	}
 	fmt.Printf("done in %.1fs\n", time.Since(t0).Seconds())
 	return code
+}
+
+func cmdImpls(names []string) int {
+	db, overlay, err := loadSpecs()
+	if err != nil {
+		fmt.Println(err)
+		return 2
+	}
+	eng, err := loadEngine("/repo/client", []string{"./..."}, overlay, db)
+	if err != nil {
+		fmt.Println(err)
+		return 2
+	}
+	for _, n := range eng.named {
+		if _, ok := n.Underlying().(*types.Interface); !ok {
+			continue
+		}
+		for _, want := range names {
+			if n.Obj().Name() == want {
+				fmt.Printf("%s:\n", shortTypeFull(n))
+				for _, t := range eng.implementers(n) {
+					fmt.Printf("    %s\n", shortType(t))
+				}
+			}
+		}
+	}
+	return 0
 }
